@@ -58,7 +58,11 @@ class RelaxedDateTime(datetime.datetime):
         return super().replace(**kwargs)
 
 def from_iso_epoch(delta):
-    rv = ISO_EPOCH + datetime.timedelta(seconds=delta)
+    try:
+        rv = ISO_EPOCH + datetime.timedelta(seconds=delta)
+    except OverflowError as err:
+        # a 64 bit time can be far beyond year 9999
+        raise ValueError(f'time value {delta} is out of range') from err
     return rv
 
 def to_iso_epoch(dt):
